@@ -23,6 +23,8 @@ import (
 type GruleErrorReporter struct {
 	*antlr.DefaultErrorListener // Embed default which ensures we fit the interface
 	Errors                      []error
+	// SyntaxErrorPositions holds line and column of every syntax error reported by the lexer or the parser
+	SyntaxErrorPositions [][2]int
 }
 
 // AddError simply add an error into this reporter
@@ -33,6 +35,22 @@ func (c *GruleErrorReporter) AddError(err error) {
 // SyntaxError call back which will be called upon parsing error
 func (c *GruleErrorReporter) SyntaxError(recognizer antlr.Recognizer, offendingSymbol interface{}, line, column int, msg string, e antlr.RecognitionException) {
 	c.Errors = append(c.Errors, fmt.Errorf("grl error on %d:%d %s", line, column, msg))
+	c.SyntaxErrorPositions = append(c.SyntaxErrorPositions, [2]int{line, column})
+}
+
+// HasSyntaxErrorBetween tells whether a syntax error was reported at or after the first and at or before the
+// second position (line, column).
+func (c *GruleErrorReporter) HasSyntaxErrorBetween(fromLine, fromColumn, toLine, toColumn int) bool {
+	for _, p := range c.SyntaxErrorPositions {
+		afterStart := p[0] > fromLine || (p[0] == fromLine && p[1] >= fromColumn)
+		beforeEnd := p[0] < toLine || (p[0] == toLine && p[1] <= toColumn)
+		if afterStart && beforeEnd {
+
+			return true
+		}
+	}
+
+	return false
 }
 
 // HasError check if this reporter has an error
